@@ -110,6 +110,19 @@ ENSURES(n == &vf_node->n ==> (vf_present == 0 && vf_present_o == OLD(vf_present_
 ENSURES(n != &vf_node->n ==> (vf_present_o == 0 && vf_present == OLD(vf_present)))
 ;
 
+/* erase by search (not used by map.c today): the same text as rbtree.c, on top of the find stub and
+ * the erase contract, so that a map function that starts to use it is still decided; and an anchor
+ * that keeps __cstl_rbtree_erase in the translation unit when map.c stops calling it */
+void * cstl_rbtree_erase(struct cstl_rbtree * const t, const void * const _p)
+{
+    void * const p = (void *)cstl_bintree_find(&t->t, _p, NULL);
+    if (p != NULL) {
+        __cstl_rbtree_erase(t, &NODE(p)->n);
+    }
+    return p;
+}
+void (* const vf_anchor_rbe)(struct cstl_rbtree *, struct cstl_rbtree_node *) = __cstl_rbtree_erase;
+
 /* ------------------------------------------------------------------ proved map contracts */
 
 /* the map is the harness's map, set up as cstl_map_init leaves it; the tracked entries are live
@@ -182,8 +195,14 @@ ENSURES(vf_w_key == vf_w_kstar ? (!vf_w_present_o || !__CPROVER_was_freed(vf_nod
 ;
 
 /* erase by iterator: removes exactly the entry the iterator refers to */
+/* (the entry is identified by the iterator: the key storage of the entry may already have been
+ * scrubbed by its owner, so no comparison may be needed -- M_PRE_IT says nothing about key values;
+ * seeded change C08-5 re-searches the tree by key) */
+#define M_PRE_IT(map) ((map) == vf_map && (map)->cmp.f == vf_ucmp && (map)->cmp.p == vf_user_priv &&             \
+                      (map)->t.t.cmp.func == cstl_map_node_cmp && (map)->t.t.cmp.priv == (map) &&                \
+                      vf_w_present == vf_present && vf_w_present_o == vf_present_o && vf_w_size == (map)->t.t.size && !vf_cmp_bad)
 void cstl_map_erase_iterator(cstl_map_t * const map, cstl_map_iterator_t * const i)
-REQUIRES(M_PRE(map) && __CPROVER_rw_ok(i, sizeof(*i)) && M_HELD && i->_ == M_ENTRY)
+REQUIRES(M_PRE_IT(map) && __CPROVER_rw_ok(i, sizeof(*i)) && M_HELD && i->_ == M_ENTRY)
 ASSIGNS(map->t.t.size, map->t.t.root, vf_present, vf_present_o;
         vf_present: __CPROVER_object_whole(vf_node); vf_present_o: __CPROVER_object_whole(vf_node_o))
 FREES(vf_node, vf_node_o)
@@ -341,6 +360,12 @@ void h_erase_iterator(void)
     vf_I._ = (vf_w_key == vf_w_kstar) ? vf_node : vf_node_o;
     vf_I.key = nondet_cptr();
     vf_I.val = nondet_ptr();
+    if (nondet_bool()) {
+        /* the owner has already scrubbed the key storage of the entry it is about to remove */
+        static int vf_SCRUB;
+        vf_SCRUB = nondet_int();
+        ((struct cstl_map_node *)vf_I._)->key = &vf_SCRUB;
+    }
     cstl_map_erase_iterator(&vf_M, &vf_I);
     VF_END();
 }
